@@ -158,10 +158,19 @@ def proxy_vocabulary():
         tree = ast.parse(inspect.getsource(result_mod))
     except (OSError, TypeError, SyntaxError):
         tree = ast.Module(body=[], type_ignores=[])
+    # `operator.add`, `math.floor`: an attribute fetched from an imported MODULE is never looked up on a student value.
+    # (Only when the name is bound by nothing but the import anywhere in the file - a rebinding keeps the name in.)
+    rebound = {n.id for n in ast.walk(tree) if isinstance(n, ast.Name) and isinstance(n.ctx, (ast.Store, ast.Del))}
+    rebound |= {n.arg for n in ast.walk(tree) if isinstance(n, ast.arg)}
+    rebound |= {n.name for n in ast.walk(tree) if isinstance(n, (ast.FunctionDef, ast.AsyncFunctionDef, ast.ClassDef))}
+    modules = {k for k, v in vars(result_mod).items() if inspect.ismodule(v) and k not in rebound}
     for n in ast.walk(tree):
         if isinstance(n, ast.Constant) and isinstance(n.value, str) and n.value.isidentifier():
             consts.append(n.value)
         elif isinstance(n, ast.Attribute):
+            if isinstance(n.value, ast.Name) and n.value.id in modules and isinstance(n.ctx, ast.Load) \
+                    and hasattr(vars(result_mod)[n.value.id], n.attr):
+                continue
             attrs.append(n.attr)
         elif isinstance(n, ast.arg):
             params.append(n.arg)
@@ -189,6 +198,12 @@ def proxy_vocabulary():
         for v in (c, "_" + c, "__%s__" % c, "_%s_" % c, c + "_", "__" + c):
             if v not in tier1 and v not in variants and v not in tier2 and not protocol(v):
                 variants.append(v)
+    # a keyword (`or` from `or_`, `class` from `class_`) cannot be written as an attribute name, and namedtuple /
+    # dataclass / Enum refuse it as a field: not an attribute a student class can carry
+    import keyword
+    tier1 = [n for n in tier1 if not keyword.iskeyword(n)]
+    tier2 = [n for n in tier2 if not keyword.iskeyword(n)]
+    variants = [n for n in variants if not keyword.iskeyword(n)]
     names = [n for n in tier1 if n != "__class__"]
     _VOCAB = {"tier1": names, "tier2": sorted(tier2), "variants": variants,
               "private": [n for n in names + tier2 + variants if n.startswith("_")],
